@@ -17,6 +17,12 @@ import PromModel.Prelude.Line
   * `initAppender`          = lazily created appender on an uninitialised head (`initTime`), including
                               the fact that `SetOptions` before the first append is dropped.
 
+  Repair switches (`repoFixedC02F2`, `repoFixedC02F3`): `false` = /repo as found (the model reproduces
+  findings C02-F2 / C02-F3), `true` = /repo with `fixes/C02-F2.patch` / `fixes/C02-F3.patch` applied.  The
+  `…With` functions take the switch as an argument, so the theorems about both variants hold whichever
+  way the constants point; `admitDecision`, `Appender.append`, `stepT` are the variants of the code the
+  check is tied to.
+
   Values: floats are their 64 bit patterns (`Nat`); histograms are small identities (`0` = the staleness
   marker `{Sum: StaleNaN}`, `1..3` exponential schema, `≥ 4` custom buckets) — `Histogram.Equals` on the
   harness' histograms is identity equality.  Timestamps are `Int`; no int64 wrap-around is modelled (the
@@ -182,6 +188,14 @@ def Head.window (h : Head) : Window :=
 def Head.truncUninit (h : Head) (mint : Int) : Head :=
   { h with initialized := true, minValidTime := mint, maxTime := max h.maxTime mint }
 
+/-- Is `fixes/C02-F2.patch` in /repo?  (`headAppender.AppendHistogram` honours
+    `AppendOptions.DiscardOutOfOrder` like `Append` does.)  `false` = the code as found (finding C02-F2). -/
+def repoFixedC02F2 : Bool := true
+
+/-- Is `fixes/C02-F3.patch` in /repo?  (`initAppender.SetOptions` remembers the options and hands them to
+    the appender it creates at the first append.)  `false` = the code as found (finding C02-F3). -/
+def repoFixedC02F3 : Bool := true
+
 structure Appender where
   v2 : Bool
   live : Bool := false                 -- underlying head appender exists (`initAppender.app != nil`)
@@ -242,9 +256,10 @@ def convertStale (types : List (String × SType)) (n : String) (x : Sample) : Sa
   else x
 
 /-- The admission decision of one `Append*` call of a live appender, as an error class or acceptance.
-    `v1` honours `discard` only for float samples and only when the sample is admissible out of order;
-    `v2` tests `isOOO` before the error (so "too old" becomes "out of order"). -/
-def admitDecision (a : Appender) (view : View) (x : Sample) : Except Reject Admit :=
+    `v1` honours `discard` only when the sample is admissible out of order — and, in the code as found
+    (`fixF2 = false`, finding C02-F2), only for float samples; `v2` tests `isOOO` before the error (so
+    "too old" becomes "out of order"). -/
+def admitDecisionWith (fixF2 : Bool) (a : Appender) (view : View) (x : Sample) : Except Reject Admit :=
   if a.w.oooWin = 0 ∧ x.t < a.w.minValid then .error .oob
   else
     let r := appendable x.kind x.t x.v view a.w
@@ -252,19 +267,28 @@ def admitDecision (a : Appender) (view : View) (x : Sample) : Except Reject Admi
       if isOOOFlag r ∧ a.discard then .error .ooo else r
     else
       match r with
-      | .ok .ooo => if x.kind = .f ∧ a.discard then .error .ooo else r
+      | .ok .ooo => if (x.kind = .f ∨ fixF2) ∧ a.discard then .error .ooo else r
       | _ => r
 
+/-- `admitDecisionWith` for the code the check is tied to. -/
+def admitDecision (a : Appender) (view : View) (x : Sample) : Except Reject Admit :=
+  admitDecisionWith repoFixedC02F2 a view x
+
 /-- `headAppender.Append/AppendHistogram` and `headAppenderV2.Append` (sample part) on a live appender. -/
-def Appender.append (a : Appender) (st : Store) (n : String) (x0 : Sample) : Appender × Store × String :=
+def Appender.appendWith (fixF2 : Bool) (a : Appender) (st : Store) (n : String) (x0 : Sample) :
+    Appender × Store × String :=
   if a.w.oooWin = 0 ∧ x0.t < a.w.minValid then (a, st, "oob")
   else
     -- getOrCreate: the series exists from now on (observable only as an empty series)
     let st := match st.find? (·.1 = n) with | some _ => st | none => st ++ [(n, {})]
     let x := convertStale a.types n x0
-    match admitDecision a (st.get n).view x with
+    match admitDecisionWith fixF2 a (st.get n).view x with
     | .error e => (a, st, rejStr e)
     | .ok _ => (a.push n x, st, "ok")
+
+/-- `Appender.appendWith` for the code the check is tied to. -/
+def Appender.append (a : Appender) (st : Store) (n : String) (x0 : Sample) : Appender × Store × String :=
+  a.appendWith repoFixedC02F2 st n x0
 
 /-! ### commit -/
 
@@ -333,6 +357,13 @@ def materialise (h : Head) (a : Appender) (t : Int) : Head × Appender :=
     let h := if h.initialized then h else { h with initialized := true, maxTime := (if h.maxTime = minI64 then t else h.maxTime) }
     (h, { a with live := true, w := h.window })
 
+/-- `SetOptions` on the appender handed out by `Head.Appender`.  In the code as found (`fixF3 = false`,
+    finding C02-F3) `initAppender.SetOptions` does nothing while the real (v1) appender does not exist yet;
+    with the repair the option is remembered and `materialise` (which keeps `discard`) carries it into the
+    appender created at the first append.  v2 passes the flag with every append. -/
+def Appender.setOptions (fixF3 : Bool) (a : Appender) (on : Bool) : Appender :=
+  if !fixF3 ∧ !a.v2 ∧ !a.live then a else { a with discard := on }
+
 def Sample.render (x : Sample) : String :=
   match x.kind with
   | .f => s!"{x.t}:F:{hexOfNat x.v 16}"
@@ -398,10 +429,7 @@ def stepT (s : State) (tk : List String) : State × String :=
     | ["opt", b] =>
       match s.app with
       | none => (s, "noapp")
-      | some a =>
-        -- v1: `initAppender.SetOptions` is a no-op while the real appender does not exist yet
-        if !a.v2 ∧ !a.live then (s, "ok")
-        else ({ s with app := some { a with discard := (b = "1") } }, "ok")
+      | some a => ({ s with app := some (a.setOptions repoFixedC02F3 (b = "1")) }, "ok")
     | [k, n, t, v] =>
       if k ≠ "f" ∧ k ≠ "h" ∧ k ≠ "fh" then (s, "bad-op") else
       match parseSample? k t v with
